@@ -3,6 +3,7 @@ package lmtp
 import (
 	"bufio"
 	"bytes"
+	"errors"
 	"fmt"
 	"log"
 	"net"
@@ -237,6 +238,10 @@ func (s *Session) handleDATA() error {
 	data, err := parser.ReadDataCommand(s.reader, s.config.LMTP.MaxSize)
 	if err != nil {
 		log.Printf("Error reading message data: %v", err)
+		if errors.Is(err, parser.ErrMessageTooLarge) {
+			// The whole message has been read; refuse it for every recipient
+			return s.rejectMessage(552, "5.3.4", err)
+		}
 		return s.sendResponse(554, "Error reading message: %v", err)
 	}
 
@@ -244,13 +249,13 @@ func (s *Session) handleDATA() error {
 	msg, err := parser.ParseMessage(bytes.NewReader(data))
 	if err != nil {
 		log.Printf("Error parsing message: %v", err)
-		return s.sendResponse(554, "Error parsing message: %v", err)
+		return s.rejectMessage(554, "5.6.0", fmt.Errorf("error parsing message: %w", err))
 	}
 
 	// Validate message
 	if err := parser.ValidateMessage(msg, s.config.LMTP.MaxSize); err != nil {
 		log.Printf("Message validation failed: %v", err)
-		return s.sendResponse(554, "Message validation failed: %v", err)
+		return s.rejectMessage(554, "5.6.0", fmt.Errorf("message validation failed: %w", err))
 	}
 
 	// Check quota for each recipient (if enabled)
@@ -281,6 +286,21 @@ func (s *Session) handleDATA() error {
 			log.Printf("Message delivered successfully to %s", recipient)
 			_ = s.sendResponse(250, "2.0.0 Message accepted for delivery to <%s>", recipient)
 		}
+	}
+
+	// Reset session state
+	s.mailFrom = ""
+	s.recipients = make([]string, 0)
+
+	return nil
+}
+
+// rejectMessage refuses a message after the end of data. LMTP requires one reply per
+// accepted recipient (RFC 2033 section 4.2) and the transaction is over either way, so
+// the session state is reset as after a delivery.
+func (s *Session) rejectMessage(code int, status string, reason error) error {
+	for _, recipient := range s.recipients {
+		_ = s.sendResponse(code, "%s Message refused for <%s>: %v", status, recipient, reason)
 	}
 
 	// Reset session state
